@@ -400,7 +400,7 @@ def _head_mod(tag, b):
     return b
 
 
-def fallback_case(acc, relfile, tag, fault, case, do_save_when_decoded=False):
+def fallback_case(acc, relfile, tag, fault, case, do_save_when_decoded=False, info_recalc=False):
     """tag: bytes. Returns outcome label."""
     from fontTools.ttLib import TTFont
     from fontTools.ttLib.tables.DefaultTable import DefaultTable
@@ -429,7 +429,9 @@ def fallback_case(acc, relfile, tag, fault, case, do_save_when_decoded=False):
     # twin B: errors ignored
     try:
         with time_limit(60):
-            fB = TTFont(io.BytesIO(blob), ignoreDecompileErrors=True, lazy=False, recalcTimestamp=False)
+            # recalcBBoxes/recalcTimestamp off: save() must not try to derive other tables' contents from the
+            # undecodable one (that it cannot is outside the statement, DESIGN 4a i); see _recalc_info
+            fB = TTFont(io.BytesIO(blob), ignoreDecompileErrors=True, lazy=False, recalcTimestamp=False, recalcBBoxes=False)
             t = fB[stag]
     except CaseTimeout:
         acc.inconclusive += 1
@@ -491,12 +493,29 @@ def fallback_case(acc, relfile, tag, fault, case, do_save_when_decoded=False):
     if derived:
         acc.label("fallback:info:loaded-dependencies-not-compared", derived)
     short_head_in_play = any(len(p) < 12 for tg, p in inp.items() if tg == b"head")
-    if bad_self:
-        acc.fail(clause + ":resave", "fallback-table-bytes-changed", "%r" % bad_self, case)
-    if bad_other:
-        kind = "short-head-checksum-write-spills-into-other-tables" if short_head_in_play else "untouched-table-bytes-changed"
-        acc.fail(clause + ":resave", kind, "tables changed although never loaded or kept raw: %r" % bad_other[:4], case)
+    if short_head_in_play and (bad_self or bad_other):
+        acc.fail(clause + ":resave", "short-head-checksum-write", "kept 'head' payload is %d bytes long; the 4-byte checkSumAdjustment write at head+8 changed (tag, saved len, input len): %r" % (len(inp[b"head"]), (bad_self + bad_other)[:4]), case, where="ttLib/sfnt.py:SFNTWriter.writeMasterChecksum")
+    else:
+        if bad_self:
+            acc.fail(clause + ":resave", "fallback-table-bytes-changed", "%r" % bad_self, case)
+        if bad_other:
+            acc.fail(clause + ":resave", "untouched-table-bytes-changed", "tables changed although never loaded or kept raw: %r" % bad_other[:4], case)
+    if info_recalc:
+        _recalc_info(acc, blob, stag)
     return "fellback:resaved-identically" if not (bad_self or bad_other) else "fellback:changed"
+
+
+def _recalc_info(acc, blob, stag):
+    """Informational: the same re-save with the default recalcBBoxes=True / recalcTimestamp=True."""
+    from fontTools.ttLib import TTFont
+
+    try:
+        f = TTFont(io.BytesIO(blob), ignoreDecompileErrors=True, lazy=False)
+        f[stag]
+        f.save(io.BytesIO())
+        acc.label("fallback:info:default-recalc-save:ok")
+    except Exception as e:
+        acc.label("fallback:info:default-recalc-save:%s@%s" % (exc_kind(e), raising_function(e)))
 
 
 def fallback_faults(payload, rnd, nflips):
@@ -535,7 +554,7 @@ def run_fallback_job(acc, job):
         for fault in [("none",)] + fallback_faults(payload, rnd, job["nflips"]):
             n += 1
             case = {"space": "fallback", "file": relfile, "tag": tag, "fault": list(fault)}
-            out = fallback_case(acc, relfile, tag, fault, case, do_save_when_decoded=(n % 5 == 0 or fault[0] == "none"))
+            out = fallback_case(acc, relfile, tag, fault, case, do_save_when_decoded=(n % 5 == 0 or fault[0] == "none"), info_recalc=(n % 3 == 0))
             if out == "no-change":
                 continue
             if fault[0] == "none" and not out.startswith("decoded"):
@@ -545,6 +564,26 @@ def run_fallback_job(acc, job):
 
 # ---------------------------------------------------------------------------
 # clause 4: a save that fails leaves an existing destination untouched
+
+
+_JOB_DIR = []
+
+
+import contextlib
+
+
+@contextlib.contextmanager
+def _job_dir(tag):
+    """One scratch directory per worker job (directory creation is slow on the shared box)."""
+    if _JOB_DIR:
+        yield _JOB_DIR[0]
+        return
+    with scratch_dir(tag) as d:
+        _JOB_DIR.append(d)
+        try:
+            yield d
+        finally:
+            _JOB_DIR.pop()
 
 
 class CompileBoom(Exception):
@@ -558,15 +597,18 @@ def _boom(*a, **k):
 EXISTING = b"EXISTING DESTINATION FILE - MUST SURVIVE A FAILED SAVE\n" * 7
 
 
-def failsave_case(acc, case):
+def failsave_case(acc, case, d=None):
     """case: dict(space='failsave', api='TTFont.save'|'TTCollection.save'|'ttx-o'|'saveXML', file=rel, tag=str, flavor=None|'woff'|'woff2', member=int)"""
     from fontTools.ttLib import TTCollection, TTFont
 
     api = case["api"]
     clause = "failsave:%s" % api
     tag = case["tag"]
+    if d is None:
+        with scratch_dir("c20fs") as d2:
+            return failsave_case(acc, case, d2)
     data = container_bytes(dict(file=case["file"], wrap=case.get("wrap")))
-    with scratch_dir("c20fs") as d:
+    if True:
         dest = os.path.join(d, "dest.bin")
         with open(dest, "wb") as f:
             f.write(EXISTING)
@@ -642,20 +684,26 @@ def run_failsave_job(acc, job):
             for fl in job["flavors"]:
                 for lazy in job.get("lazies", [None]):
                     cases.append(dict(space="failsave", api=api, file=relfile, tag=t, flavor=fl, lazy=lazy))
-    for c in cases:
-        out = failsave_case(acc, c)
+    with scratch_dir("c20fs") as d:
+        outs = [(c, failsave_case(acc, c, d)) for c in cases]
+    for c, out in outs:
         acc.case(c, nontrivial=out.startswith("failed"), labels=["failsave:%s:%s" % (api, c.get("flavor")), "failsave:outcome:%s" % out], sample=c if c["tag"] == "hmtx" else None)
 
 
 def run_savexml_info_job(acc, job):
     """Informational only (see ASSUMPTIONS): TTFont.saveXML(path) when a table's toXML raises."""
+    with _job_dir("c20sx"):
+        _run_savexml_info_job(acc, job)
+
+
+def _run_savexml_info_job(acc, job):
     from fontTools.ttLib import TTFont
 
     data = read_file(job["file"])
     _, _, ents = F.parse_sfnt_dir(data)
     for e in ents:
         tag = e[0].decode("latin-1")
-        with scratch_dir("c20sx") as d:
+        with _job_dir("c20sx") as d:
             dest = os.path.join(d, "dest.ttx")
             with open(dest, "wb") as f:
                 f.write(EXISTING)
